@@ -687,5 +687,25 @@ func coverageNote(r *h.Run) {
 
 // Coq term of the tree /t/src of a spec (Model.v spec_tree)
 func coqTree(spec treeSpec) string {
-	return fmt.Sprintf("(spec_tree %d %d %s %d)", spec.Dirs, spec.Files, h.Bool(spec.Big > 0), spec.Empty)
+	return fmt.Sprintf("(spec_tree %d %d %d %d)", spec.Dirs, spec.Files, (spec.Big+32767)/32768, spec.Empty)
+}
+
+func dumpOps(ep *entryPoint, spec treeSpec) {
+	e, err := newEnv(spec, ep.Zip)
+	if err != nil {
+		return
+	}
+	e.sh.ResetLog()
+	e.sh.Rec = true
+	e.sh.SetHook(func(op *shim.Op) error {
+		if ep.RenameFails && op.Name == "Rename" {
+			return &os.LinkError{Op: "rename", Old: op.Path, New: op.Path2, Err: errCrossDevice}
+		}
+		return nil
+	})
+	rerr := ep.Run(context.Background(), e)
+	for i, op := range e.sh.Log() {
+		fmt.Printf("%4d %-14s %s %s\n", i+1, op.Name, op.Path, op.Path2)
+	}
+	fmt.Println("result:", rerr)
 }
